@@ -664,13 +664,21 @@ def standard_samplers(ctx):
             fields["df"] = "df"
         o = Obj(cls, **fields)
         del rec[:]
-        paths = it.explore(lambda: method(cls, "_sample")(o, "key", None))
         q = f"{MOD}.{cname}._sample"
+        try:
+            paths = it.explore(lambda: method(cls, "_sample")(o, "key", None))
+        except Exception as ex:  # noqa: BLE001  (a hand-written sampler: outside this model, the fixed-seed KS test of the family decides)
+            ctx.oblige(f"C05/{cname}._sample/struct/straight_line", False, [], props, kind="applicability", fn=q, replay=dict(kind="c05", vars={}), note=f"sampler outside the model: {type(ex).__name__}: {str(ex)[:120]}")
+            continue
         p = single(paths, ctx, f"C05/{cname}._sample/struct/straight_line", props, q)
         if p is None:
             continue
         ok = len(rec) == 1 and rec[0][0] == fam and rec[0][1] == "key" and p.value == ("draw", fam)
         shp = (rec[0][3].get("shape", rec[0][2][0] if rec[0][2] else None)) if rec else None
+        if len(rec) != 1 or p.value != ("draw", rec[0][0]):
+            # not `return jax.random.<one family>(key, ...)`: a composite / hand-written sampler may be perfectly right -- model-shape guard
+            ctx.oblige(f"C05/{cname}._sample/post/draws_from_its_own_family_with_the_given_key", False, [], props, kind="applicability", fn=q, replay=dict(kind="c05", vars={}), note=f"recorded jax.random calls: {[(r[0], r[1]) for r in rec]}")
+            continue
         ctx.oblige(f"C05/{cname}._sample/post/draws_from_its_own_family_with_the_given_key", bool(ok), [], props, kind="struct", fn=q, replay=dict(kind="c05", vars={}), note=f"recorded jax.random calls: {[(r[0], r[1]) for r in rec]}")
         ctx.oblige(f"C05/{cname}._sample/post/sample_has_the_distribution_shape", shp is shape, [], props, kind="struct", fn=q, replay=dict(kind="c05", vars={}))
         if cname == "_StandardStudentT":
